@@ -21,6 +21,7 @@ import (
 	"math"
 	"math/big"
 	"os"
+	"strings"
 	"testing"
 
 	"github.com/golang/protobuf/proto"
@@ -1035,9 +1036,10 @@ func c08WithLedger(f func(lo *hx.LedgerOnly) error) error {
 	return f(lo)
 }
 
-// evalC08 rebuilds the block of shape, checks the unmutated block and evaluates one mutation.
-func evalC08(shape c08Shape, mut c08Mut) error {
-	return c08WithLedger(func(lo *hx.LedgerOnly) error {
+// evalC08Split rebuilds the block of shape, checks the unmutated block (baseErr) and evaluates one
+// mutation (mutErr; not evaluated when the base oracle already fails).
+func evalC08Split(shape c08Shape, mut c08Mut) (baseErr, mutErr error) {
+	baseErr = c08WithLedger(func(lo *hx.LedgerOnly) error {
 		b, err := c08Build(lo, shape)
 		if err != nil {
 			return err
@@ -1048,9 +1050,19 @@ func evalC08(shape c08Shape, mut c08Mut) error {
 		if shape.NTx == 0 || shape.Fmt == "root" {
 			return nil
 		}
-		_, _, _, err = b.evalOne(mut)
-		return err
+		_, _, _, mutErr = b.evalOne(mut)
+		return nil
 	})
+	return baseErr, mutErr
+}
+
+// evalC08: the oracle for one (block shape, mutation) pair.
+func evalC08(shape c08Shape, mut c08Mut) error {
+	berr, merr := evalC08Split(shape, mut)
+	if berr != nil {
+		return berr
+	}
+	return merr
 }
 
 // evalC08All: base oracle plus the whole enumerated mutation list (generator exclusions honoured).
@@ -1280,6 +1292,9 @@ func c08GenShape(rt *rapid.T) c08Shape {
 
 // ---------------------------------------------------------------------------------------------
 
+// c08WitnessSymptom: how the oracle reports the root cause (a witness failing otherwise is not that finding).
+var c08WitnessSymptom = map[string]string{c08FDupTail: "VerifyBlock accepts the mutant", c08FOffCurve: "VerifyBlock panicked"}
+
 func c08Witnesses() map[string][2]interface{} {
 	return map[string][2]interface{}{
 		// [a,b,c] -> [a,b,c,c]: same self-pairing merkle root, TxCount stays 3, id and signature untouched
@@ -1323,8 +1338,22 @@ func TestC08(t *testing.T) {
 	}()
 	for _, id := range []string{c08FDupTail, c08FOffCurve} {
 		id, w := id, wit[id]
-		werr := evalC08(w[0].(c08Shape), w[1].(c08Mut))
+		berr, werr := evalC08Split(w[0].(c08Shape), w[1].(c08Mut))
 		trace := []interface{}{w[0], w[1]}
+		if berr != nil {
+			// the witness block itself does not verify: that is not the listed root cause
+			c.Violate("block-mutations", berr.Error(), []interface{}{w[0]})
+			late = append(late, func() { t.Errorf("witness block of %s: %v", id, berr) })
+			c08Exclude[id] = false
+			continue
+		}
+		if werr != nil && !strings.Contains(werr.Error(), c08WitnessSymptom[id]) {
+			// the witness mutant fails, but not the way the root cause does: an ordinary violation
+			c.Violate("block-mutations", werr.Error(), trace)
+			late = append(late, func() { t.Errorf("witness mutant of %s fails differently: %v", id, werr) })
+			c08Exclude[id] = false
+			continue
+		}
 		if f, listed := fs.Listed(id); werr == nil || (listed && f.Status == "known") {
 			c08Exclude[id] = witnessVerdict(t, c, fs, id, werr, trace) && !noExclude
 		} else {
